@@ -4,7 +4,7 @@ from collections import Counter
 from tools.vlib import *
 from checks import brainlib
 
-THEOREMS = ["C08_generator_pure", "C08_history_independent", "C08_table_ok"]
+THEOREMS = ["C08_generator_pure", "C08_history_independent", "C08_table_ok", "C08_nonvacuous"]
 FORBIDDEN_STATE = re.compile(r"\bstatic\s+mut\b|\bunsafe\b|\bCell\b|\bRefCell\b|\bMutex\b|\bRwLock\b|\bAtomic\w+\b|thread_local!|\bUnsafeCell\b|\bOnceCell\b")
 
 
